@@ -408,7 +408,8 @@ class InstanceWriteProvider(BaseProvider):
                             _format("Reference property {0!A} association "
                                     "end {1!A} with None value not allowed ",
                                     prop.name, prop.value))
-                    if prop.value != original_instance[pn]:
+                    orig_value = original_instance.get(pn)
+                    if orig_value is None or prop.value != orig_value:
                         self.validate_reference_property_endpoint_exists(prop,)
 
         # Update the properties in the original instance from properties
